@@ -287,6 +287,32 @@ def _exemptions(repo, fn):
                 break
         return " & ".join(gs) if gs else "always"
 
+    bool_params = {p["name"] for p in fn.params if p.get("name") and "".join(str(p.get("ty", "")).split()) == "bool"}
+
+    def mode_only_return(ret):
+        """`if [!]flag { return Ok(..) }` directly in a match arm, flag a bool parameter, with every descent of that arm (recursive call
+        or call of another validator) standing before it: the rest of the arm runs in one mode only -- what an arm guard `if flag`
+        would say, and an arm guard is no exemption either (no element is let through: all children were already visited)."""
+        gs = A.guards_of(ret, pm)
+        if len(gs) < 2 or gs[0][0]["k"] != "If" or gs[1][0]["k"] != "Arm":
+            return False
+        c = gs[0][0]["cond"]
+        while c["k"] in ("Paren",) or (c["k"] == "Unary" and c.get("op") == "!"):
+            c = c["expr"]
+        if not (c["k"] == "Path" and c["path"] in bool_params):
+            return False
+        arm = gs[1][0]
+        iff = gs[0][0]
+        for x in A.walk(arm["body"]):
+            nm = None
+            if x["k"] == "Call" and x["func"]["k"] == "Path":
+                nm = x["func"]["path"].split("::")[-1]
+            elif x["k"] == "MethodCall":
+                nm = x["method"]
+            if nm is not None and (nm == fn.name or nm in descend_names) and not A.before(x, iff):
+                return False
+        return True
+
     for n in A.walk(fn.body):
         k = n["k"]
         if k in ("Continue", "Break"):
@@ -306,6 +332,8 @@ def _exemptions(repo, fn):
         elif k == "Return":
             e = n.get("expr")
             txt = "".join(repo.text(fn.file, e).split()) if e is not None else ""
+            if (e is None or txt.startswith("Ok(")) and mode_only_return(n):
+                continue
             if e is None or txt.startswith("Ok(") or txt in ("()", "true", "false", "None"):
                 out.append(("return-ok", guard_chain(n) + (" => " + txt[:40] if txt else ""), n["l"]))
         elif k == "MethodCall" and n["method"] in DROPPERS:
